@@ -17,9 +17,11 @@ CONSTANTS
   Limits = {1, 100}
   NewaccVals = {TRUE, FALSE}
   AsattVals = {FALSE}
+  LongVals = {FALSE}
   AllowSlow = FALSE
   DEV_NewaccNoAuth = FALSE
   DEV_ServeUnfinished = FALSE
+  DEV_SniffPadded = FALSE
   DEV_FinishFailLeavesBytes = FALSE
 SPECIFICATION Spec
 VIEW View
